@@ -235,7 +235,27 @@ func writeJSONServerState(stateDir string, js *jsonServerState) error {
 	if encoded, err = json.Marshal(js); err != nil {
 		return err
 	}
-	return os.WriteFile(path.Join(stateDir, stateFile), encoded, 0o600)
+
+	// Write to a temporary file and rename it into place, so that a crash
+	// mid-write can not leave a truncated statefile behind (which would lose
+	// the bridge's identity, and prevent it from starting).
+	fPath := path.Join(stateDir, stateFile)
+	tmpPath := fPath + ".tmp"
+	f, err := os.OpenFile(tmpPath, os.O_WRONLY|os.O_CREATE|os.O_TRUNC, 0o600)
+	if err != nil {
+		return err
+	}
+	if _, err = f.Write(encoded); err == nil {
+		err = f.Sync()
+	}
+	if cerr := f.Close(); err == nil {
+		err = cerr
+	}
+	if err != nil {
+		_ = os.Remove(tmpPath)
+		return err
+	}
+	return os.Rename(tmpPath, fPath)
 }
 
 func newBridgeFile(stateDir string, st *obfs4ServerState) error {
